@@ -60,6 +60,8 @@ fn main() {
 		("C04", Some(c)) => checks::c04::replay(ctx.clone(), c),
 		("C10", None) => checks::c10::run(ctx.clone()),
 		("C10", Some(c)) => checks::c10::replay(ctx.clone(), c),
+		("C11", None) => checks::c11::run(ctx.clone()),
+		("C11", Some(c)) => checks::c11::replay(ctx.clone(), c),
 		("C12", None) => checks::c12::run(ctx.clone()),
 		("C12", Some(c)) => checks::c12::replay(ctx.clone(), c),
 		("C14", None) => checks::c14::run(ctx.clone()),
